@@ -140,7 +140,7 @@ impl Monitor for C11 {
         vec![("blocks", tier.pick(160 * 2000, 160 * 40_000)), ("large_pairs", tier.pick(40_000, 800_000))]
     }
     fn rule(&self) -> &'static str {
-        "case i -> (flat | spatial block) x loops L in 1..4 x input-skips x output-skips x accumulation in {add, subtract, multiply, mean, overwrite} (the 160-point grid is walked completely, 40+ times), body of 1..3 random shape-preserving layers (dense; 'same' convolutions incl. dilation 2, size-preserving deconvolutions, deconvolution+max-pool pairs), the block placed first / after a layer of matching representation / before a dense layer (flattened output) / last; repetition-free weights in [-1,1]; Network::predict is compared with the reference block (L-fold application with shared weights, repetition r>1 fed combine(previous output, block input), output = combine(last, earlier outputs)) within the running f32 error bound. Every fourth case puts dropout 0.5 on the block's layers and sends the network object through a learn() call with two epochs, after which the installed weights are put back, before predicting: the block must still compute the dropout-free sequence. Every fourth case trains the network for 1..3 epochs on two samples (SGD 0.05, batch 1..2) and predicts with the weights training left behind: the reference block then uses the weights read from the block's first repetition for all repetitions. large_pairs: blocks of ONE linear layer whose elements do not mix (diagonal matrix / 1x1 single-channel kernel, factors +-{0.25..1}), two repetitions, input and / or output skips, accumulation mean / add / subtract / overwrite, inputs of magnitude 3e35..3.3e38 with random signs: every combination inside the block has exactly two operands, so no evaluation order is involved; elements for which the exact sum / difference of the two operands and every value of the chain stay below 0.99 f32::MAX must come out as the combination (1e-5 relative); other elements are not judged. Distinct = distinct configuration descriptors."
+        "case i -> (flat | spatial block) x loops L in 1..4 x input-skips x output-skips x accumulation in {add, subtract, multiply, mean, overwrite} (the 160-point grid is walked completely, 40+ times), body of 1..3 random shape-preserving layers (dense; 'same' convolutions incl. dilation 2, size-preserving deconvolutions, deconvolution+max-pool pairs), the block placed first / after a layer of matching representation / before a dense layer (flattened output) / last; repetition-free weights in [-1,1]; Network::predict is compared with the reference block (L-fold application with shared weights, repetition r>1 fed combine(previous output, block input), output = combine(last, earlier outputs)) within the running f32 error bound. Every fourth case puts dropout 0.5 on the block's layers and sends the network object through a learn() call with two epochs, after which the installed weights are put back, before predicting: the block must still compute the dropout-free sequence. Every fourth case trains the network for 1..3 epochs on two samples (SGD 0.05, batch 1..2) and predicts with the weights training left behind: the reference block then uses the weights read from the block's first repetition for all repetitions. Every eighth case calls Network::set_activation with the block's index: a refusal must leave the block as it was (the usual comparison follows); if the call is accepted the output must be the repeated application of ONE layer sequence - the unchanged body, or the body with the new activation on its last layer or on all layers, in every repetition alike. large_pairs: blocks of ONE linear layer whose elements do not mix (diagonal matrix / 1x1 single-channel kernel, factors +-{0.25..1}), two repetitions, input and / or output skips, accumulation mean / add / subtract / overwrite, inputs of magnitude 3e35..3.3e38 with random signs: every combination inside the block has exactly two operands, so no evaluation order is involved; elements for which the exact sum / difference of the two operands and every value of the chain stay below 0.99 f32::MAX must come out as the combination (1e-5 relative); other elements are not judged. Distinct = distinct configuration descriptors."
     }
     fn assumptions(&self) -> Vec<&'static str> {
         vec!["reference block semantics written from the property statement (refmodel::block_forward); multiply/subtract/mean over several sources read as a*prod(s), a-sum(s), (a+sum(s))/(1+|s|); overwrite = last source"]
@@ -295,8 +295,62 @@ impl Monitor for C11 {
                 }
             }
         }
+        // every eighth case: Network::set_activation is called with the block's index. The call
+        // may be refused (then nothing may have changed); if it is accepted the block must still
+        // be the L-fold application of ONE layer sequence: the body as it was, the body with the
+        // new activation on its last layer, or on all of its layers - in every repetition alike
+        let mut candidates: Vec<(&'static str, NetCfg)> = Vec::new();
+        if (idx / 7) % 4 == 2 && (idx / 28) % 2 == 0 {
+            let bpos = cfg.layers.iter().position(|l| matches!(l, LCfg::Feedback { .. })).unwrap();
+            let a = *rng.pick(&acts);
+            let before = a;
+            match guard(std::panic::AssertUnwindSafe(|| net.set_activation(bpos, lib_act(before)))) {
+                Err(_) => out.count("set_activation_on_a_block_refused", 1),
+                Ok(()) => {
+                    out.count("set_activation_on_a_block_accepted", 1);
+                    let mut last = cfg.clone();
+                    let mut all = cfg.clone();
+                    if let LCfg::Feedback { body, .. } = &mut last.layers[bpos] {
+                        // the last layer with an activation (a max-pool has none)
+                        if let Some(l) = body.iter_mut().rev().find(|l| l.act().is_some()) {
+                            l.set_act(a);
+                        }
+                    }
+                    if let LCfg::Feedback { body, .. } = &mut all.layers[bpos] {
+                        for l in body.iter_mut() {
+                            l.set_act(a);
+                        }
+                    }
+                    candidates.push(("the new activation on the body's last layer in every repetition", last));
+                    candidates.push(("the new activation on every body layer in every repetition", all));
+                }
+            }
+        }
         let r: RNet<E> = RNet::plain(&cfg, &params);
         let want = r.forward(&Val::from_f32(cfg.input, &x));
+        if !candidates.is_empty() {
+            match guard(|| net.predict(&tensor_of(cfg.input, &x))) {
+                Err(m) => out.viol(&format!("block:forward-panic:after-set-activation:{}", tag), format!("predict of {} after set_activation on the block panicked: {}", cfg.describe(), short(&m, 200)), case_json(&cfg, &params, &x)),
+                Ok(p) => {
+                    out.count("block_predictions_compared_after_set_activation", 1);
+                    let mut fits = cmp_e(&flat(&p), &want.output().d).is_none();
+                    for (_, c) in candidates.iter() {
+                        let rc: RNet<E> = RNet::plain(c, &params);
+                        if cmp_e(&flat(&p), &rc.forward(&Val::from_f32(c.input, &x)).output().d).is_none() {
+                            fits = true;
+                        }
+                    }
+                    if !fits {
+                        out.viol(
+                            &format!("block:value:after-set-activation:L{}", if loops == 1 { "1" } else { ">1" }),
+                            format!("{}: after set_activation on the block the output is the repeated application of no single layer sequence (neither the unchanged body, nor the new activation on the last layer or on all layers of every repetition)", cfg.describe()),
+                            case_json(&cfg, &params, &x),
+                        );
+                    }
+                }
+            }
+            return out;
+        }
         match guard(|| net.predict(&tensor_of(cfg.input, &x))) {
             Err(m) => {
                 let sig = if loops == 1 && outskips { format!("block:forward-panic:L1-outskips:{}", acc.name()) } else { format!("block:forward-panic:{}", tag) };
